@@ -14,12 +14,15 @@ class C05(InterpProp):
                   "of these constructs, all environments and any number of ticks, (1) the blocks holding the lock form one "
                   "nested chain and (2) no Watch / Alarm of the interrupt map lies inside a block that has ended (End block "
                   "ends the block together with its pending Watches and Alarms; with the /repo fix). Both are invariants "
-                  "preserved by each of the ~30 frame transitions, lifted by a transfer theorem. The other clauses (Block tag "
+                  "preserved by each of the ~30 frame transitions, lifted by a transfer theorem. (3) Outside Alarm and Macro "
+                  "bodies a started line whose parent is a Block lies in a block that has taken the lock (holds it, or has "
+                  "ended / completed since): no line of a block body runs before the block acquired the lock (rely / guarantee "
+                  "stack invariant over every frame of every generator, proofs/Interp_stack.v + proofs/C05_order.v). The other clauses (Block tag "
                   "= innermost active block, nothing after a block starts before it ended) are decided by the Coq monitor on "
                   "the real interpreter; the last one is refuted inside re-arming Alarm bodies and inside a Macro body that two calls execute at once (known findings).")
     LEVEL_NOTE = ("Theorems are about coq/model/Interp.v (with macros; injection, cancel / force and live edits are the subject "
-                  "of C14, C12 and C01). Theorem (2) assumes that parent pointers and child lists of the method describe the same tree "
-                  "(tree_ok_b, evaluated by the monitor on every generated method). Tie: generated methods are parsed by the "
+                  "of C14, C12 and C01). Theorems (2) and (3) assume that parent pointers and child lists of the method describe the same tree "
+                  "(tree_ok_b / wf_b, evaluated by the monitor on every generated method). Tie: generated methods are parsed by the "
                   "real parser and run on the real PInterpreter (interp.tick called directly on an engine that provides the "
                   "interpreter context) under a scripted environment -- per tick: which nodes still await their threshold, "
                   "which conditions evaluate true or raise (_is_awaiting_threshold / _evaluate_condition replaced by the "
